@@ -114,7 +114,7 @@ TYPED_INVALID = [
     ("boolean", ["TRUE", "yes", ""]), ("dateTime", ["2000-13-01T00:00:00", "yesterday", ""]), ("date", ["2000-02-30", "x"]),
     ("time", ["25:00:00"]), ("duration", ["P", "1D"]), ("hexBinary", ["0", "XY"]), ("gYear", ["x"]),
 ]
-UNKNOWN_DT = ["http://ex.org/dt", "http://ex.org/dt#unit", RDFNS + "XMLLiteral", RDFNS + "HTML", RDFNS + "JSON",
+UNKNOWN_DT = ["http://ex.org/dt", "http://ex.org/dt#unit", "http://ex.org/dt?a=1&b=2", RDFNS + "XMLLiteral", RDFNS + "HTML", RDFNS + "JSON",
               "http://www.opengis.net/ont/geosparql#wktLiteral"]
 
 
